@@ -391,7 +391,7 @@ func matchInit(segmentPart string, cfg *ResponseConfig, drmCfg *drm.DrmConfig, a
 					}
 					scheme := keyData.CommonEncryptionScheme
 					kid := sliceToId16(keyData.KeyID)
-					iv := keyData.ExplicitIV
+					iv := ivForContentKey(keyData)
 					_, initSeg, err := genEncInit(rep.initBytes, kid, iv, scheme)
 					if err != nil {
 						return im, fmt.Errorf("genEncInit: %w", err)
@@ -460,6 +460,18 @@ func writeLiveSegment(log *slog.Logger, w http.ResponseWriter, cfg *ResponseConf
 	return nil
 }
 
+// ivForContentKey returns the IV to use with a CPIX content key.
+// The explicitIV attribute is optional in CPIX. When it is absent, the same default IV
+// as for ClearKey (eccp) is used (16 bytes), so that init segments and media segments agree.
+func ivForContentKey(ck drm.ContentKey) []byte {
+	if len(ck.ExplicitIV) > 0 {
+		return ck.ExplicitIV
+	}
+	iv := make([]byte, 16)
+	copy(iv, defaultIV)
+	return iv
+}
+
 func encryptFrags(log *slog.Logger, cfg *ResponseConfig, drmCfg *drm.DrmConfig,
 	rp *RepData, frags []*mp4.Fragment) error {
 	var ipd *mp4.InitProtectData
@@ -492,8 +504,8 @@ func encryptFrags(log *slog.Logger, cfg *ResponseConfig, drmCfg *drm.DrmConfig,
 		ipd = &ipdStart
 		tenc := *ipd.Tenc
 		tenc.DefaultKID = keyData.KeyID
-		tenc.DefaultConstantIV = keyData.ExplicitIV
-		iv = keyData.ExplicitIV
+		iv = ivForContentKey(keyData)
+		tenc.DefaultConstantIV = iv
 		ipd.Tenc = &tenc
 		key = keyData.Key
 	}
